@@ -382,6 +382,9 @@ func Worker06(cfg Config) *evid.Stats {
 	st := evid.NewStats()
 	rn := &runner{cfg: cfg, st: st, rc: &refCache{m: map[uint64]*refResult{}}, vcap: 6, pristineEvery: 1 << 62}
 	one := func(c *Case) {
+		if !rn.gate(c) {
+			return
+		}
 		wr := execute(c, nil, false, false)
 		vs := judge06(c, wr, rn.rc)
 		st.Evals++
